@@ -9,14 +9,15 @@ stops type-checking when a fact cannot be read (`none`), when one of the facts t
 namespace Bpmn.Props.C10
 open Bpmn.Model.Boundary
 
-def cfgOf (gated once refuse share early : Option Bool) : Option Cfg := do
-  let g ← gated; let o ← once; let r ← refuse; let s ← share; let e ← early
-  pure { gated := g, once := o, refuse := r, share := s, early := e }
+def cfgOf (gated once refuse share early resetFirst : Option Bool) : Option Cfg := do
+  let g ← gated; let o ← once; let r ← refuse; let s ← share; let e ← early; let rf ← resetFirst
+  pure { gated := g, once := o, refuse := r, share := s, early := e, resetFirst := rf }
 
 /-- the facts of the current source -/
 def current : Cfg :=
   (cfgOf Bpmn.Gen.C10.eventsGatedByActive Bpmn.Gen.C10.cancellationOnce Bpmn.Gen.C10.cancelRefusedWhilePending
-    Bpmn.Gen.C10.listenersShareWaitGroup Bpmn.Gen.C10.activeSetBeforeNextAction).get (by decide)
+    Bpmn.Gen.C10.listenersShareWaitGroup Bpmn.Gen.C10.activeSetBeforeNextAction
+    Bpmn.Gen.C10.activeResetBeforeHandover).get (by decide)
 
 /-- D7 does not depend on the facts: on the current ones (as on any) the interrupting statement is false, the cancel
 cannot stop a request in flight, and C10 as a whole fails -/
@@ -83,6 +84,23 @@ theorem current_activation :
       | false => rfl
       | true => exact absurd ⟨he, hg⟩ h
 
+/-- the order of `active := 0` and the hand-over of the answer: reset first (and the gate) — once the token holds the
+answer no event reaches a boundary event, on every schedule; reset afterwards — an event delivered after the host
+completed still continues the exception flow -/
+theorem current_handover :
+    if current.resetFirst = true ∧ current.gated = true then
+      ∀ (kinds : List Bool) (s : St), Reach current kinds s → Req.forwarded.rank ≤ s.req.rank → ∀ i : Nat,
+        step current s (.deliver i) = some s ∨ step current s (.deliver i) = none
+    else if current.resetFirst = false then
+      ∃ s s' : St, Reach current [false] s ∧ s.req = .done ∧ s.normal = 1 ∧ contsAt s 0 = 0 ∧
+        run current s [.deliver 0, .catchTake 0, .transform 0, .move 0] = some s' ∧ contsAt s' 0 = 1
+    else True := by
+  split
+  · next h => exact fun kinds s hr hh i => handover_inert current h.1 h.2 kinds s hr hh i
+  · split
+    · next h => exact C10_counterexample_late_reset current h
+    · trivial
+
 /-- C10 on the current facts: false (D7 is not governed by any extracted fact), with the partial statement where the
 once and the gate are in place -/
 theorem current_verdict :
@@ -92,7 +110,7 @@ theorem current_verdict :
   · next h => exact C10_partial current h.1 h.2
   · trivial
 
-/-- what is right today stays right: the once and the gate -/
-theorem current_no_regression : (current.once && current.gated) = true := by decide
+/-- what is right today stays right: the once, the gate, and `active := 0` before the hand-over -/
+theorem current_no_regression : (current.once && current.gated && current.resetFirst) = true := by decide
 
 end Bpmn.Props.C10
